@@ -169,6 +169,9 @@ def directed():
         # the array like any other read); then its source is overwritten; then it is read
         # (the selections in between are read first: what is still unread when its source is written is the open finding F10)
         between_ = [{"op": "obs", "u": "a%d" % k_, "what": "tolist", "arg": None} for k_ in range(1, len(chain))]
+        # the first thing that happens to the derived array is a conversion to its own element type, whose result is then overwritten
+        yield {"steps": steps0 + [{"op": "obs", "u": u, "what": "astypesame", "arg": None}, {"op": "obs", "u": u, "what": "tolist", "arg": None},
+                                  {"op": "obs", "u": "a0", "what": "tolist", "arg": None}], "hazard": False}
         for what_, arg_ in [("unimpl", k_) for k_ in range(4)]:
             yield {"steps": steps0 + between_ + [{"op": "obs", "u": u, "what": what_, "arg": arg_},
                                       {"op": "assign", "u": "a0", "rs": Ellipsis, "cs": None, "has_cs": False, "vk": "scalar", "val": 777},
@@ -176,6 +179,15 @@ def directed():
         if n:
             yield {"steps": steps0 + [{"op": "assign", "u": u, "rs": 0, "cs": None, "has_cs": False, "vk": "scalar", "val": 888},
                                       {"op": "obs", "u": "a0", "what": "ravel", "arg": None}, {"op": "obs", "u": u, "what": "tolist", "arg": None}], "hazard": False}
+    # pieces of one array, cut out with different column steps and not yet looked at, joined in one call
+    for (sa_, sb_) in ((((slice(None), slice(None, None, 2)), (slice(None), slice(None, None, -1)))), ((slice(None), slice(1, None)), (slice(1, 3), slice(None, None, 2))),
+                       ((slice(None), slice(None, None, -2)), (slice(None), slice(None, None, 2))), ((slice(0, 2), slice(None, None, 3)), (slice(2, None), slice(None, None, -1)))):
+        for order_ in (0, 1):
+            pa_, pb_ = (sa_, sb_) if order_ == 0 else (sb_, sa_)
+            yield {"steps": [{"op": "init", "v": "a0", "rows": [list(r) for r in BASE_ROWS]},
+                             {"op": "sel", "v": "a1", "u": "a0", "rs": pa_[0], "cs": pa_[1], "has_cs": True}, {"op": "sel", "v": "a2", "u": "a0", "rs": pb_[0], "cs": pb_[1], "has_cs": True},
+                             {"op": "concat", "v": "a3", "u": "a1", "w": "a2", "axis": 0}, {"op": "obs", "u": "a3", "what": "tolist", "arg": None},
+                             {"op": "obs", "u": "a1", "what": "tolist", "arg": None}, {"op": "obs", "u": "a2", "what": "tolist", "arg": None}], "hazard": False}
     # the same chains of selections on rows of thousands of cells (mean row length beyond 5000), read and written through
     long_rows = [[(7 * i + 3 * j) % 1000 + 1000 * i for j in range(L)] for i, L in enumerate([21001, 18000, 0, 24003, 15002, 18001])]
     for rname, chain in RECV_SELS.items():
